@@ -3,6 +3,7 @@ package codec
 import (
 	"bytes"
 	"fmt"
+	"math"
 	"strconv"
 
 	"github.com/pentops/j5/lib/j5reflect"
@@ -118,6 +119,19 @@ func (enc *encoder) addBool(val bool) {
 }
 
 func (enc *encoder) addFloat(val float64, bitSize int) {
+	// NaN and the infinities have no JSON literal, use the protojson strings.
+	if math.IsNaN(val) {
+		enc.addQuoted([]byte("NaN"))
+		return
+	}
+	if math.IsInf(val, 0) {
+		if val > 0 {
+			enc.addQuoted([]byte("Infinity"))
+		} else {
+			enc.addQuoted([]byte("-Infinity"))
+		}
+		return
+	}
 	str := strconv.FormatFloat(val, 'g', -1, bitSize)
 	enc.add([]byte(str))
 }
